@@ -286,6 +286,8 @@ class KMatrix(ModelItem):
             return False
         matrix = self.reduced(compartments)
         return not any(
-            np.nonzero(matrix[:, i])[0].size != 1 or i != 0 and matrix[i, i - 1] == 0
+            np.nonzero(matrix[:, i])[0].size != 1
+            or (i != 0 and matrix[i, i - 1] == 0)
+            or (i == matrix.shape[1] - 1 and matrix[i, i] == 0)
             for i in range(matrix.shape[1])
         )
